@@ -1,4 +1,333 @@
 //! Parser / printer / encoder operations (second half of the protocol).
-pub fn exec2<'a, I: Iterator<Item = &'a str>>(_op: &str, _it: &mut I) -> String {
-    "bad-op".into()
+use crate::codec::{dec, s};
+use lambda_calculus::data::num::convert::Encoding;
+use lambda_calculus::parser::{self, CToken, ParseError, Token};
+use lambda_calculus::term::LAMBDA;
+use lambda_calculus::*;
+
+pub fn char_wire(c: char) -> String {
+    let flags = (c.is_whitespace() as u32) | ((c.is_alphabetic() as u32) << 1) | ((c.is_alphanumeric() as u32) << 2);
+    let dig = c.to_digit(16).unwrap_or(16);
+    format!("{}:{}:{}", c as u32, flags, dig)
+}
+
+pub fn string_wire(sx: &str) -> String {
+    let v: Vec<String> = sx.chars().map(char_wire).collect();
+    format!("{} {}", v.len(), v.join(" "))
+}
+
+fn read_string<'a, I: Iterator<Item = &'a str>>(it: &mut I) -> Option<String> {
+    let n: usize = it.next()?.parse().ok()?;
+    let mut out = String::new();
+    for _ in 0..n {
+        let tok = it.next()?;
+        let cp: u32 = tok.split(':').next()?.parse().ok()?;
+        out.push(char::from_u32(cp)?);
+    }
+    Some(out)
+}
+
+fn show_err(e: &ParseError) -> String {
+    match e {
+        ParseError::InvalidCharacter((i, c)) => format!("err IC {} {}", i, *c as u32),
+        ParseError::InvalidExpression => "err IE".into(),
+        ParseError::EmptyExpression => "err EE".into(),
+    }
+}
+
+fn show_tok(t: &Token) -> String {
+    match t {
+        Token::Lambda => "L".into(),
+        Token::Lparen => "(".into(),
+        Token::Rparen => ")".into(),
+        Token::Number(n) => format!("N{}", n),
+    }
+}
+
+fn show_name(n: &str) -> String {
+    n.chars().map(|c| (c as u32).to_string()).collect::<Vec<_>>().join(".")
+}
+
+pub fn show_ctok(t: &CToken) -> String {
+    match t {
+        CToken::CLambda(n) => format!("CL:{}", show_name(n)),
+        CToken::CLparen => "(".into(),
+        CToken::CRparen => ")".into(),
+        CToken::CName(n) => format!("CN:{}", show_name(n)),
+    }
+}
+
+fn dec_name(x: &str) -> Option<String> {
+    if x.is_empty() {
+        return Some(String::new());
+    }
+    x.split('.').map(|p| p.parse::<u32>().ok().and_then(char::from_u32)).collect()
+}
+
+fn dec_ctok(x: &str) -> Option<CToken> {
+    if x == "(" {
+        Some(CToken::CLparen)
+    } else if x == ")" {
+        Some(CToken::CRparen)
+    } else if let Some(r) = x.strip_prefix("CL:") {
+        dec_name(r).map(CToken::CLambda)
+    } else if let Some(r) = x.strip_prefix("CN:") {
+        dec_name(r).map(CToken::CName)
+    } else {
+        None
+    }
+}
+
+fn show_cps(x: &str) -> String {
+    let v: Vec<String> = x.chars().map(|c| (c as u32).to_string()).collect();
+    if v.is_empty() {
+        "0".into()
+    } else {
+        format!("{} {}", v.len(), v.join(" "))
+    }
+}
+
+pub fn enc_of(x: &str) -> Option<Encoding> {
+    Some(match x {
+        "church" => Encoding::Church,
+        "scott" => Encoding::Scott,
+        "parigot" => Encoding::Parigot,
+        "stumpfu" => Encoding::StumpFu,
+        "binary" => Encoding::Binary,
+        _ => return None,
+    })
+}
+
+pub fn into_num(e: Encoding, n: usize) -> Term {
+    match e {
+        Encoding::Church => n.into_church(),
+        Encoding::Scott => n.into_scott(),
+        Encoding::Parigot => n.into_parigot(),
+        Encoding::StumpFu => n.into_stumpfu(),
+        Encoding::Binary => n.into_binary(),
+    }
+}
+
+pub fn exec2<'a, I: Iterator<Item = &'a str>>(op: &str, it: &mut I) -> String {
+    macro_rules! bad {
+        () => {
+            return "bad-op".into()
+        };
+    }
+    macro_rules! term {
+        () => {
+            match dec(it) {
+                Some(t) => t,
+                None => bad!(),
+            }
+        };
+    }
+    macro_rules! num {
+        () => {
+            match it.next().and_then(|x| x.parse::<usize>().ok()) {
+                Some(n) => n,
+                None => bad!(),
+            }
+        };
+    }
+    match op {
+        "lexd" => {
+            let sx = match read_string(it) { Some(x) => x, None => bad!() };
+            match parser::tokenize_dbr(&sx) {
+                Ok(ts) => {
+                    let mut v = vec!["ok".to_string()];
+                    v.extend(ts.iter().map(show_tok));
+                    v.join(" ")
+                }
+                Err(e) => show_err(&e),
+            }
+        }
+        "lexc" => {
+            let sx = match read_string(it) { Some(x) => x, None => bad!() };
+            match parser::tokenize_cla(&sx) {
+                Ok(ts) => {
+                    let mut v = vec!["ok".to_string()];
+                    v.extend(ts.iter().map(show_ctok));
+                    v.join(" ")
+                }
+                Err(e) => show_err(&e),
+            }
+        }
+        "conv" => {
+            let n = num!();
+            let mut cts = Vec::new();
+            for _ in 0..n {
+                match it.next().and_then(dec_ctok) {
+                    Some(c) => cts.push(c),
+                    None => bad!(),
+                }
+            }
+            let ts = parser::convert_classic_tokens(&cts);
+            let mut v = vec!["ok".to_string()];
+            v.extend(ts.iter().map(show_tok));
+            v.join(" ")
+        }
+        "parse" => {
+            let nota = match it.next() {
+                Some("d") => DeBruijn,
+                Some("c") => Classic,
+                _ => bad!(),
+            };
+            let sx = match read_string(it) { Some(x) => x, None => bad!() };
+            match parse(&sx, nota) {
+                Ok(t) => format!("ok {}", s(&t)),
+                Err(e) => show_err(&e),
+            }
+        }
+        "show" => {
+            let which = match it.next() { Some(w) => w.to_string(), None => bad!() };
+            let lam = num!();
+            if lam as u32 != LAMBDA as u32 {
+                return "wrong-build".into();
+            }
+            let t = term!();
+            match which.as_str() {
+                "c" => show_cps(&t.to_string()),
+                "d" => show_cps(&format!("{:?}", t)),
+                _ => bad!(),
+            }
+        }
+        "enc" => {
+            let e = match it.next().and_then(enc_of) { Some(e) => e, None => bad!() };
+            let n = num!();
+            s(&into_num(e, n))
+        }
+        "signed" => {
+            let e = match it.next().and_then(enc_of) { Some(e) => e, None => bad!() };
+            let i: i32 = match it.next().and_then(|x| x.parse().ok()) { Some(i) => i, None => bad!() };
+            s(&i.into_signed(e))
+        }
+        "vect" => {
+            let kind = match it.next() { Some(k) => k.to_string(), None => bad!() };
+            let k = num!();
+            let mut ts = Vec::new();
+            for _ in 0..k {
+                ts.push(term!());
+            }
+            match kind.as_str() {
+                "pair" => s(&ts.into_pair_list()),
+                "from" => s(&Term::from(ts)),
+                "church" => s(&IntoChurchList::into_church(ts)),
+                "scott" => s(&IntoScottList::into_scott(ts)),
+                "parigot" => s(&IntoParigotList::into_parigot(ts)),
+                _ => bad!(),
+            }
+        }
+        "vecn" => {
+            let kind = match it.next() { Some(k) => k.to_string(), None => bad!() };
+            let k = num!();
+            let mut ns: Vec<usize> = Vec::new();
+            for _ in 0..k {
+                ns.push(num!());
+            }
+            match kind.as_str() {
+                "church" => s(&IntoChurchList::into_church(ns)),
+                "scott" => s(&IntoScottList::into_scott(ns)),
+                "parigot" => s(&IntoParigotList::into_parigot(ns)),
+                _ => bad!(),
+            }
+        }
+        "frompair" => {
+            let a = term!();
+            let b = term!();
+            s(&Term::from((a, b)))
+        }
+        "fromopt" => match it.next() {
+            Some("none") => s(&Term::from(None::<Term>)),
+            Some("some") => {
+                let a = term!();
+                s(&Term::from(Some(a)))
+            }
+            _ => bad!(),
+        },
+        "fromres" => match it.next() {
+            Some("ok") => {
+                let a = term!();
+                s(&Term::from(Ok::<Term, Term>(a)))
+            }
+            Some("err") => {
+                let a = term!();
+                s(&Term::from(Err::<Term, Term>(a)))
+            }
+            _ => bad!(),
+        },
+        "frombool" => match it.next() {
+            Some("1") => s(&Term::from(true)),
+            Some("0") => s(&Term::from(false)),
+            _ => bad!(),
+        },
+        "numpair" => {
+            let e = match it.next().and_then(enc_of) { Some(e) => e, None => bad!() };
+            let a = num!();
+            let b = num!();
+            s(&match e {
+                Encoding::Church => IntoChurchNum::into_church((a, b)),
+                Encoding::Scott => IntoScottNum::into_scott((a, b)),
+                Encoding::Parigot => IntoParigotNum::into_parigot((a, b)),
+                Encoding::StumpFu => (a, b).into_stumpfu(),
+                Encoding::Binary => (a, b).into_binary(),
+            })
+        }
+        "numopt" => {
+            let e = match it.next().and_then(enc_of) { Some(e) => e, None => bad!() };
+            let v: Option<usize> = match it.next() {
+                Some("none") => None,
+                Some("some") => Some(num!()),
+                _ => bad!(),
+            };
+            s(&match e {
+                Encoding::Church => IntoChurchNum::into_church(v),
+                Encoding::Scott => IntoScottNum::into_scott(v),
+                Encoding::Parigot => IntoParigotNum::into_parigot(v),
+                Encoding::StumpFu => v.into_stumpfu(),
+                Encoding::Binary => v.into_binary(),
+            })
+        }
+        "numres" => {
+            let e = match it.next().and_then(enc_of) { Some(e) => e, None => bad!() };
+            let v: Result<usize, usize> = match it.next() {
+                Some("ok") => Ok(num!()),
+                Some("err") => Err(num!()),
+                _ => bad!(),
+            };
+            s(&match e {
+                Encoding::Church => IntoChurchNum::into_church(v),
+                Encoding::Scott => IntoScottNum::into_scott(v),
+                Encoding::Parigot => IntoParigotNum::into_parigot(v),
+                Encoding::StumpFu => v.into_stumpfu(),
+                Encoding::Binary => v.into_binary(),
+            })
+        }
+        "tuple" => {
+            let k = num!();
+            let mut ts = Vec::new();
+            for _ in 0..k {
+                ts.push(term!());
+            }
+            let mut d = ts.into_iter();
+            let mut n = || d.next().unwrap();
+            s(&match k {
+                2 => tuple!(n(), n()),
+                3 => tuple!(n(), n(), n()),
+                4 => tuple!(n(), n(), n(), n()),
+                5 => tuple!(n(), n(), n(), n(), n()),
+                6 => tuple!(n(), n(), n(), n(), n(), n()),
+                _ => bad!(),
+            })
+        }
+        "pi" => {
+            let i = num!();
+            let n = num!();
+            if i == 0 || i > n {
+                bad!();
+            }
+            s(&pi!(i, n))
+        }
+        _ => "bad-op".into(),
+    }
 }
